@@ -266,6 +266,26 @@ Section Eager.
   Lemma qcost_cons c f r : qcost ((c, f) :: r) = cost c + qcost r.
   Proof. reflexivity. Qed.
 
+  (* one pop: the world handed to `handle` -- time, potential and measure *)
+  Lemma pop_progress_core w w0 c f :
+    idle w ->
+    now w0 = now w -> timer w0 = timer w -> on_end_restart w0 = on_end_restart w -> busy_until w0 = busy_until w -> ended w0 = ended w ->
+    qcost (qu w0) + qcost (qh w0) + qcost (qn w0) + cost c = qcost (qu w) + qcost (qh w) + qcost (qn w) ->
+    (List.length (qu w0) + List.length (qh w0) + List.length (qn w0) + 1 = List.length (qu w) + List.length (qh w) + List.length (qn w))%nat ->
+    let X := settle_park (finish_end (handle E V w0 c f)) in
+    now X = now w /\ slack X <= slack w /\ (mu X < mu w)%nat.
+  Proof.
+    intros I A B C D F QC QL X.
+    assert (idle w0) as I0 by (unfold idle in *; rewrite A, D; exact I).
+    destruct (handle_progress E w0 c f I0) as (P1 & P2 & P3 & _ & _).
+    destruct (tail_sk (handle E V w0 c f)) as [TS TC]. fold X in TS, TC.
+    destruct (sk_slack _ _ TS) as (S1 & S2 & S3 & S4 & S5).
+    assert (slack w0 + cost c = slack w) as SL by (unfold slack, rem_timer; rewrite A, B, D; lia).
+    assert (mu0 w0 + 6 = mu0 w)%nat as ML by (unfold mu0; rewrite B, C; lia).
+    split; [rewrite S3, P1; exact A|]. split; [rewrite S1; lia|].
+    unfold mu; rewrite S2; pose proof (rb_le X); lia.
+  Qed.
+
   (* one pop: the world handed to `handle` *)
   Lemma pop_progress w w0 c f :
     idle w -> Pre w ->
@@ -289,6 +309,50 @@ Section Eager.
     right. split; [rewrite S4, P5a, F; exact NE|]. unfold has_delete. rewrite S5, P5b.
     destruct QN as [QN|QN]; [rewrite QN; exists fd; exact HD|].
     rewrite QN in HD. destruct HD as [HD|HD]; [injection HD as -> _; contradiction | exists fd; exact HD].
+  Qed.
+
+  (* every step of the task consumes measure and never raises the potential, whatever is queued *)
+  Lemma task_step_measure w s :
+    In s (enabled V w) ->
+    let X := task_step E V w s in
+    now X = now w /\ slack X <= slack w /\ (mu X < mu w)%nat.
+  Proof.
+    intros En. destruct (enabled_sound w s En) as (NE & I & OK). unfold task_step.
+    destruct s; cbn [src_ok] in OK.
+    - destruct OK as [ch C]. destruct (handle_wait_sk E w ch C) as [HS HR].
+      destruct (tail_sk (handle_wait E V w)) as [TS TC]. rewrite HS in TS.
+      set (X := settle_park (finish_end (handle_wait E V w))) in *. cbv zeta.
+      assert (now X = now w /\ busy_until X = busy_until w /\ timer X = None /\ on_end_restart X = None /\ qu X = qu w /\ qh X = qh w /\ qn X = qn w /\ ended X = ended w)
+        as (A & B & T & O & Q1 & Q2 & Q3 & Q4) by (unfold sk in TS; injection TS as ? ? ? ? ? ? ? ?; repeat split; assumption).
+      split; [exact A|]. split; [unfold slack, rem_timer; rewrite A, B, T, Q1, Q2, Q3; lia|].
+      unfold mu, mu0. rewrite T, O, Q1, Q2, Q3. assert (rb w = 1%nat) as RW by (unfold rb; rewrite C; reflexivity). rewrite RW.
+      destruct (on_end_restart w) eqn:OW.
+      + pose proof (rb_le X). destruct (timer w); lia.
+      + assert (rb X = 0%nat) as RX by (unfold rb; rewrite TC; specialize (HR eq_refl); unfold rb in HR; exact HR). rewrite RX. destruct (timer w); lia.
+    - destruct OK as (d & f & r & T & L). rewrite T. cbv zeta.
+      set (c := if r then CContinueTGR else CStop). set (w0 := set_timer w None).
+      assert (idle w0) as I0 by exact I.
+      destruct (handle_progress E w0 c f I0) as (P1 & _ & _ & P4 & _).
+      assert (c = CStop \/ c = CContinueTGR) as CC by (unfold c; destruct r; [right | left]; reflexivity).
+      destruct (P4 CC) as [P4a P4b].
+      destruct (tail_sk (handle E V w0 c f)) as [TS TC].
+      set (X := settle_park (finish_end (handle E V w0 c f))) in *.
+      destruct (sk_slack _ _ TS) as (S1 & S2 & S3 & S4 & S5).
+      assert (slack w0 <= slack w) as SL by (unfold slack, rem_timer, w0; cbn [timer set_timer now busy_until qu qh qn]; rewrite T; lia).
+      assert (mu0 w0 + 2 = mu0 w)%nat as ML by (unfold mu0, w0; cbn [timer set_timer on_end_restart qu qh qn]; rewrite T; lia).
+      split; [rewrite S3, P1; reflexivity|]. split; [rewrite S1; lia|]. unfold mu; rewrite S2; pose proof (rb_le X); lia.
+    - destruct (qu w) as [|[c f] r] eqn:Q; [contradiction|]. cbn [pop].
+      apply pop_progress_core; try assumption; try reflexivity.
+      + cbn [qu qh qn out emit set_queues]. rewrite Q, qcost_cons. lia.
+      + cbn [qu qh qn out emit set_queues]. rewrite Q. cbn [List.length]. lia.
+    - destruct (qh w) as [|[c f] r] eqn:Q; [contradiction|]. cbn [pop].
+      apply pop_progress_core; try assumption; try reflexivity.
+      + cbn [qu qh qn out emit set_queues]. rewrite Q, qcost_cons. lia.
+      + cbn [qu qh qn out emit set_queues]. rewrite Q. cbn [List.length]. lia.
+    - destruct OK as [OK _]. destruct (qn w) as [|[c f] r] eqn:Q; [contradiction|]. cbn [pop].
+      apply pop_progress_core; try assumption; try reflexivity.
+      + cbn [qu qh qn out emit set_queues]. rewrite Q, qcost_cons. lia.
+      + cbn [qu qh qn out emit set_queues]. rewrite Q. cbn [List.length]. lia.
   Qed.
 
   Lemma task_step_progress w s :
@@ -476,11 +540,12 @@ Section Sched.
       + rewrite QN in R. destruct (nonempty (qu w)); [discriminate|]. destruct (nonempty (qh w)); discriminate.
   Qed.
 
-  Lemma advance_progress w : Pre w -> enabled V w = [] ->
+  Lemma advance_core w :
+    (now w < busy_until w \/ exists d f r, timer w = Some (d, f, r) /\ now w < d) ->
     exists t, next_event w = Some t /\ now w < t /\ t + slack (set_now w t) <= now w + slack w /\
-              mu (set_now w t) = mu w /\ (nu (set_now w t) < nu w)%nat /\ Pre (set_now w t).
+              mu (set_now w t) = mu w /\ (nu (set_now w t) < nu w)%nat.
   Proof.
-    intros P En. destruct (stuck_analysis w P En) as [B | (d & f & r & T & L)].
+    intros [B | (d & f & r & T & L)].
     - assert (In (busy_until w) (future w)) as I.
       { unfold future. apply filter_In. split; [unfold cands; apply in_or_app; right; left; reflexivity | apply N.ltb_lt; exact B]. }
       destruct (next_event w) as [t|] eqn:NE; [|unfold next_event in NE; destruct (future w); [contradiction | discriminate]].
@@ -488,7 +553,7 @@ Section Sched.
       assert (now w < t) as Lt by (unfold future in It; apply filter_In in It; destruct It as [_ X]; apply N.ltb_lt; exact X).
       specialize (Min _ I). split; [exact Lt|]. split.
       { unfold slack, rem_timer. cbn [now timer busy_until qu qh qn set_now]. destruct (timer w) as [[[d ?] ?]|]; lia. }
-      split; [reflexivity|]. split; [|exact P].
+      split; [reflexivity|].
       unfold nu, future. cbn [now set_now]. change (cands (set_now w t)) with (cands w).
       apply filter_shrinks; [exact Lt | unfold future in It; apply filter_In in It; destruct It as [X _]; exact X].
     - assert (In d (future w)) as I.
@@ -498,9 +563,17 @@ Section Sched.
       assert (now w < t) as Lt by (unfold future in It; apply filter_In in It; destruct It as [_ X]; apply N.ltb_lt; exact X).
       specialize (Min _ I). split; [exact Lt|]. split.
       { unfold slack, rem_timer. cbn [now timer busy_until qu qh qn set_now]. rewrite T. lia. }
-      split; [reflexivity|]. split; [|exact P].
+      split; [reflexivity|].
       unfold nu, future. cbn [now set_now]. change (cands (set_now w t)) with (cands w).
       apply filter_shrinks; [exact Lt | unfold future in It; apply filter_In in It; destruct It as [X _]; exact X].
+  Qed.
+
+  Lemma advance_progress w : Pre w -> enabled V w = [] ->
+    exists t, next_event w = Some t /\ now w < t /\ t + slack (set_now w t) <= now w + slack w /\
+              mu (set_now w t) = mu w /\ (nu (set_now w t) < nu w)%nat /\ Pre (set_now w t).
+  Proof.
+    intros P En. destruct (advance_core w (stuck_analysis w P En)) as (t & A & B & C & D & F).
+    exists t. repeat split; try assumption; apply P.
   Qed.
 
   Lemma eager_run_ended fuel ch w : ended w = true -> eager_run fuel ch w = w.
